@@ -1327,6 +1327,8 @@ def g_gate(mode):
     names = ["m", "hidden", "ow", "sm", "cm", "p", "q", "ro", "_alias", "_m_alias", "_private", "__len__", "__init__", "__class__", "__dict__", "__getattribute__",
              "base_exposed", "base_hidden", "helper", "helper.helper_method", "attr", "nosuch", "", "m ", "M", "ｍ", "＿_class__", "__reduce__", "__setattr__", "__call__", 5, None, ["m"]]
     kinds = ["call", "oneway", "batch", "getattr", "setattr"]
+    # raw attribute requests with surplus arguments (a peer is free to send any argument list): they must not switch the gate off
+    kinds += [("getattr", x) for x in (False, 0, None, "", True, [])] + [("setattr", x) for x in (False, 0, None, "", True)]
     with Running("thread") as r:
         obj = Shape()
         r.daemon.register(obj, "shape")
@@ -1349,6 +1351,10 @@ def g_gate(mode):
                         raw.invoke("shape", "<batch>", [(name, (), {})], flags=P.FLAGS_BATCH, seq=seq)
                     elif kind == "getattr":
                         raw.invoke("shape", "__getattr__", (name,), seq=seq)
+                    elif isinstance(kind, tuple) and kind[0] == "getattr":
+                        raw.invoke("shape", "__getattr__", (name, kind[1]), seq=seq)
+                    elif isinstance(kind, tuple):
+                        raw.invoke("shape", "__setattr__", (name, 1, kind[1]), seq=seq)
                     else:
                         raw.invoke("shape", "__setattr__", (name, 1), seq=seq)
                 except (ValueError, TypeError):
@@ -1376,7 +1382,10 @@ def g_gate(mode):
                         v = raw.value(m)
                         is_exc = bool(v) and isinstance(v[0], core._ExceptionWrapper)
                     served = not is_exc
-                desc = {"group": "C02", "name": repr(name), "kind": kind}
+                desc = {"group": "C02", "name": repr(name), "kind": kind if isinstance(kind, str) else "%s with surplus argument %r" % kind}
+                surplus = isinstance(kind, tuple)
+                if surplus:
+                    kind = kind[0]
                 if kind in ("call", "oneway", "batch"):
                     allowed = isinstance(name, str) and name in advertised_methods
                     if ran and not allowed:
@@ -1391,7 +1400,7 @@ def g_gate(mode):
                         allowed = False
                     if ran and not allowed:
                         fail(violated="property code ran for a name that is not an exposed non-private property: %r" % (ran,), **desc)
-                    if allowed and not ran:
+                    if allowed and not ran and not surplus:
                         fail(violated="advertised attribute was not served", **desc)
         raw.close()
         if advertised_methods != {"m", "ow", "sm", "cm", "base_exposed", "__len__"} or advertised_attrs != {"p", "ro"}:
